@@ -1,7 +1,7 @@
 # ---------------------------------------------------------------- C09 package outputs have the required members
 PROPS["C09"] = {
     "level": "proof",
-    "explanation": "epub_create, opendocument_text_create (-> opendocument_core_file_create -> opendocument_core_zip), textbundle_create and itmz_create are verified (goto-instrument --dfcc, real unmodified functions) against a ghost member table: miniz is used through a logging contract (name, buffer, size, flags per mz_zip_writer_add_mem; finalize hands out an uninterpreted archive). Required members are present exactly once, mimetype is member 0 (EPUB: with the EPUB media type; ODT: stored), the main document member is the caller's body, the archive is finalised once after all members and its (pointer,length) is returned in the DString.",
+    "explanation": "(Shared with C20: c20_export_token_tree proves, for every format, the exact sequence of emitting routines of mmd_engine_export_token_tree -- for the packaged HTML formats EPUB/TextBundle the same body writer followed by the same footnote, glossary and citation lists as plain HTML, always wrapped as a complete document: the 'main document equals the plain rendering' clause at the level of the call trace.) epub_create, opendocument_text_create (-> opendocument_core_file_create -> opendocument_core_zip), textbundle_create and itmz_create are verified (goto-instrument --dfcc, real unmodified functions) against a ghost member table: miniz is used through a logging contract (name, buffer, size, flags per mz_zip_writer_add_mem; finalize hands out an uninterpreted archive). Required members are present exactly once, mimetype is member 0 (EPUB: with the EPUB media type; ODT: stored), the main document member is the caller's body, the archive is finalised once after all members and its (pointer,length) is returned in the DString.",
     "slice": "epub_create, opendocument_text_create, opendocument_core_file_create, opendocument_core_zip, textbundle_create, itmz_create",
     "not_reached": "ZIP validity and CRCs (miniz trusted); that container.xml / the OPF manifest / manifest.xml TEXT names the members (generated text uninterpreted); asset-path consistency (add_assets by contract); equality of the inner document with the plain format's rendering",
     "trusted_base": ["cbmc/goto-cc/goto-instrument 6.11.0 (DFCC instrumentation, MiniSat2)", "miniz (mz_zip_writer_add_mem / finalize_heap_archive by logging contract)", "lib/ds_sink.c (DString specification)", "lib/libc_stubs.c strlen stub, CBMC built-in strcpy"],
